@@ -81,29 +81,46 @@ RangeWhole ==
   /\ last' = [a |-> "RangeWhole", arg |-> <<>>, cls |-> "", exp |-> [range |-> RangeAll(arr)] @@ Proj(arr)]
 
 \* the complete table of a view (get at every coordinate of the view's size, in flattened order)
+\* and get at the given probe coordinates, which may lie outside the view's size (GetE of Array3DOps:
+\* sub-box and accessor forward to the clamping array, MultiSlice clamps z, a shift wraps)
 ViewExp(V) == [vsize |-> V.size, vn |-> NumElements(V), table |-> V.val, vrange |-> RangeAll(V)]
+OutExp(e, P) == [outside |-> [i \in 1..Len(P) |-> GetE(e, P[i])]]
+AllDefined(e, P) == \A i \in 1..Len(P) : Len(P[i]) = 3 /\ DefinedE(e, P[i])
+SlicesOf(ps) == SlicesE([i \in 1..Len(ps) |-> SubE(<<0, 0, ps[i]>>, <<arr.size[1], arr.size[2], ps[i] + 1>>, ArrLeaf(arr))])
 
-ViewShift(s) ==
-  /\ made /\ ShiftClaimed(arr.size, s)
+ViewShift(s, P) ==
+  /\ made /\ ShiftClaimed(arr.size, s) /\ AllDefined(ShiftE(s, ArrLeaf(arr)), P)
   /\ UNCHANGED <<arr, made>>
-  /\ last' = [a |-> "ViewShift", arg |-> [s |-> s], cls |-> "", exp |-> ViewExp(ShiftView(arr, s)) @@ Proj(arr)]
+  /\ last' = [a |-> "ViewShift", arg |-> [s |-> s, probes |-> P], cls |-> "",
+              exp |-> ViewExp(ShiftView(arr, s)) @@ OutExp(ShiftE(s, ArrLeaf(arr)), P) @@ Proj(arr)]
 
-ViewSub(lo, hi) ==
-  /\ made /\ InsideBox(arr.size, lo, hi)
+ViewSub(lo, hi, P) ==
+  /\ made /\ InsideBox(arr.size, lo, hi) /\ AllDefined(SubE(lo, hi, ArrLeaf(arr)), P)
   /\ UNCHANGED <<arr, made>>
-  /\ last' = [a |-> "ViewSub", arg |-> [lo |-> lo, hi |-> hi], cls |-> "", exp |-> ViewExp(SubView(arr, lo, hi)) @@ Proj(arr)]
+  /\ last' = [a |-> "ViewSub", arg |-> [lo |-> lo, hi |-> hi, probes |-> P], cls |-> "",
+              exp |-> ViewExp(SubView(arr, lo, hi)) @@ OutExp(SubE(lo, hi, ArrLeaf(arr)), P) @@ Proj(arr)]
 
-ViewAcc ==
-  /\ made
+ViewAcc(P) ==
+  /\ made /\ AllDefined(AccE("f64", ArrLeaf(arr)), P)
   /\ UNCHANGED <<arr, made>>
-  /\ last' = [a |-> "ViewAcc", arg |-> <<>>, cls |-> "", exp |-> ViewExp(AccView(arr)) @@ Proj(arr)]
+  /\ last' = [a |-> "ViewAcc", arg |-> [probes |-> P], cls |-> "",
+              exp |-> ViewExp(AccView(arr)) @@ OutExp(AccE("f64", ArrLeaf(arr)), P) @@ Proj(arr)]
 
 \* MultiSliceArray3D whose slices are the z-planes ps[1], ps[2], ... of the array (SubBox views)
-ViewSlices(ps) ==
+ViewSlices(ps, P) ==
   /\ made /\ Len(ps) >= 1 /\ \A i \in 1..Len(ps) : ps[i] \in 0..(arr.size[3] - 1)
+  /\ AllDefined(SlicesOf(ps), P)
   /\ UNCHANGED <<arr, made>>
-  /\ last' = [a |-> "ViewSlices", arg |-> [ps |-> ps], cls |-> "",
-              exp |-> ViewExp(SliceView([i \in 1..Len(ps) |-> PlaneOf(arr, ps[i])])) @@ Proj(arr)]
+  /\ last' = [a |-> "ViewSlices", arg |-> [ps |-> ps, probes |-> P], cls |-> "",
+              exp |-> ViewExp(SliceView([i \in 1..Len(ps) |-> PlaneOf(arr, ps[i])])) @@ OutExp(SlicesOf(ps), P) @@ Proj(arr)]
+
+\* the probes Next uses: every coordinate from -Margin to size-1+Margin per axis that the view gives a meaning
+\* (Sparse: only the coordinates with every component at an end of that range, or exactly one component
+\*  outside and the others 0 - every sign combination, small enough for the ghost variable)
+SparseProbe(d, c) == \/ \A i \in 1..3 : c[i] \in {-Margin, d[i] - 1 + Margin}
+                     \/ \E i \in 1..3 : c[i] \in {-Margin, d[i] - 1 + Margin} /\ \A j \in (1..3) \ {i} : c[j] = 0
+ProbeSeq(e) == SelectSeq(AroundSeq(SizeE(e), Margin),
+                         LAMBDA c : DefinedE(e, c) /\ (Sparse => SparseProbe(SizeE(e), c)))
 
 PlaneSeqs(d) == UNION {[1..n -> 0..(d[3] - 1)] : n \in 1..MaxSlices}
 Corners(d)   == Coords3(d) \X Coords3(Plus(d, <<1, 1, 1>>))
@@ -120,10 +137,10 @@ SubSet(d)   == IF Sparse THEN {b \in Corners(d) : b[1] = <<0, 0, 0>> \/ b[2] = d
 NextRead ==
   \/ \E c \in GetSet(arr.size) : Get(c)
   \/ \E b \in Corners(arr.size) : Range(b[1], b[2])
-  \/ \E b \in SubSet(arr.size) : ViewSub(b[1], b[2])
-  \/ RangeWhole \/ ViewAcc
-  \/ \E s \in ShiftSet(arr.size) : ViewShift(s)
-  \/ \E ps \in PlaneSeqs(arr.size) : ViewSlices(ps)
+  \/ \E b \in SubSet(arr.size) : InsideBox(arr.size, b[1], b[2]) /\ ViewSub(b[1], b[2], ProbeSeq(SubE(b[1], b[2], ArrLeaf(arr))))
+  \/ RangeWhole \/ ViewAcc(ProbeSeq(AccE("f64", ArrLeaf(arr))))
+  \/ \E s \in ShiftSet(arr.size) : ViewShift(s, ProbeSeq(ShiftE(s, ArrLeaf(arr))))
+  \/ \E ps \in PlaneSeqs(arr.size) : ViewSlices(ps, ProbeSeq(SlicesOf(ps)))
 Next == NextMut \/ NextRead
 
 Spec == Init /\ [][Next]_vars
@@ -131,5 +148,5 @@ SpecMut == Init /\ [][NextMut]_vars     \* every array state, without the readin
 
 -------------------------------------------------------------------------------
 LastAgrees == last.exp.dump = arr.val /\ last.exp.size = arr.size
-ViewLaws   == made => LawShift(arr) /\ LawSub(arr) /\ LawSlices(arr) /\ LawRange(arr) /\ LawClamp(arr)
+ViewLaws   == made => LawShift(arr) /\ LawSub(arr) /\ LawSlices(arr) /\ LawRange(arr) /\ LawClamp(arr) /\ LawOutside(arr)
 ===============================================================================
